@@ -23,7 +23,7 @@ def configs(tier: str):
                         for faults, hooks in ((False, False), (True, False), (True, True)):
                             if hooks and (N == 2 or B > 2):
                                 continue
-                            if faults and N == 2 and B > 2:
+                            if faults and N == 2 and B > (1 if tier == 'quick' else 2):
                                 continue
                             for t, offset in ((1, 'zero'), (-1, 'zero'), (0, 'sym')):
                                 if offset == 'sym' and (faults or N == 2 and B > 1):
@@ -43,6 +43,8 @@ TWINS = [
 
 def finding_key(cfg: dict, cand: dict) -> str:
     bad = cand['replay']['bad']
+    if cfg.get('part') == 'progloop':
+        return f"progloop:{cfg['prog']},B={cfg['B']},errors={cfg['errors']},failures={cfg['failures']}:{bad[0] if bad else '?'}"
     if cfg.get('part') == 'natural':
         return f"natural:{cfg['prog']},errors={cfg['errors']},cfe={cfg['cfe']},B={cfg['B']}:{bad[0] if bad else '?'}"
     return (f"errors={cfg['errors']},failures={cfg['failures']},cfe={cfg['cfe']},B={cfg['B']},N={cfg['N']},"
@@ -67,7 +69,7 @@ def natural_configs(tier: str):
         for errors in ('raise', 'skip', 'ignore', 'replace'):
             for cfe in (True, False):
                 for B in ((1, 2) if tier == 'quick' else (1, 2, 3)):
-                    if tier == 'quick' and B == 2 and (name == 'exp' or errors == 'replace'):
+                    if tier == 'quick' and ((B == 2 and (name == 'exp' or errors == 'replace')) or (errors == 'replace' and name != 'div')):
                         continue
                     if name == 'chain' and B == 1:
                         continue   # (its pass-1 comparison subtracts two uninterpreted values: z3 gives up)
@@ -79,6 +81,9 @@ def natural_configs(tier: str):
 def explore_any(cfg: dict) -> dict:
     if cfg.get('part') == 'natural':
         return explore_natural(cfg)
+    if cfg.get('part') == 'progloop':
+        from checks.progloop import explore_progloop
+        return explore_progloop(cfg)
     from checks.loopfam import explore_config
     return explore_config(cfg)
 
@@ -265,7 +270,7 @@ def main() -> int:
     tier = vlib.tier()
     rep = vlib.Report('C06', 'model_checking', tier)
     run_family(
-        rep, configs(tier) + natural_configs(tier), TWINS + [{'part': 'natural', 'prog': 'div', 'errors': 'raise', 'failures': 'ignore', 'cfe': True, 'B': 1, 'L': 2, 't': 1, 'twin': 'no_warn'}],
+        rep, configs(tier) + natural_configs(tier) + __import__('checks.progloop', fromlist=['x']).progloop_configs(tier, finite=False), TWINS + [{'part': 'natural', 'prog': 'div', 'errors': 'raise', 'failures': 'ignore', 'cfe': True, 'B': 1, 'L': 2, 't': 1, 'twin': 'no_warn'}],
         functions=['fsic.core.models.BaseModel.solve_t'],
         bounds={'max_iter': f"0..{2 if tier == 'quick' else 4}", 'check_variables': '0..2', 'span_length': 3,
                 'errors': ['raise', 'skip', 'ignore', 'replace', 'bogus'], 'failures': ['raise', 'ignore'],
